@@ -34,7 +34,7 @@ def def_key(d, N, variants, rh):
     return hashlib.sha256(text.encode()).hexdigest()[:20]
 
 
-ST_VERSION = 12      # bump to invalidate cached per-definition results when the harness changes
+ST_VERSION = 14      # bump to invalidate cached per-definition results when the harness changes
 
 
 def work_def(args):
@@ -115,13 +115,24 @@ def work_def(args):
         st['mismatch_roles'] = {'%s | %s' % ('+'.join(k[0]), k[1]): v for k, v in nseen.items()}
         res['stats'] = st
     except OverBudget as e:
-        res['over_budget'] = True
+        res['over_budget'] = not res['mismatches']
         res['over_budget_reason'] = str(e)[:200]
         res['inconclusive'] = None
     except Inconclusive as e:
         res['inconclusive'] = str(e)[:1500]
     except Exception as e:
         res['inconclusive'] = 'internal error: ' + traceback.format_exc()[-1500:]
+    if res['stats'] is None and res['inconclusive'] is None:
+        try:
+            st = h.stats
+            st['queries'] = h.ex.queries
+            st['solver_time'] = round(h.ex.solver_time, 3)
+            st['cache_hits'] = h.ex.cache_hits
+            st['deep_N'] = None
+            st['fn_cover'] = {}
+            res['stats'] = st
+        except Exception:
+            res['stats'] = {'paths': 0, 'queries': 0, 'ref_outcomes': 0, 'solver_time': 0.0, 'covers': {}, 'deep_N': None}
     res['time'] = round(time.time() - t0, 2)
     return res
 
